@@ -431,7 +431,7 @@ func (t *fnTrans) modelQueries() []string {
 			qs = append(qs, fmt.Sprintf("(slen %s)", n))
 			if ev, ok := t.vars["E_"+typeKey(u.Elem())]; ok && (isInt(u.Elem()) || isBool(u.Elem())) {
 				for i := 0; i < 24; i++ {
-					qs = append(qs, fmt.Sprintf("(select (select %s_0 (sbase %s)) (+ (soff %s) %d))", ev.Name, n, n, i))
+					qs = append(qs, fmt.Sprintf("(select (select %s_0 (sbase %s)) (ix (soff %s) %d))", ev.Name, n, n, i))
 				}
 			}
 		case *types.Basic:
